@@ -672,10 +672,19 @@ func c13IndividualSetters(m *c13Mon, r *fw.Rand) {
 		m.edit("AddName", func() string {
 			ind.Names()
 			ind.Names()
-			ind.AddName("Extra /Name/")
+			added := "Extra /Name/"
+			if before := ind.Names(); len(before) > 0 && r.Bool() {
+				added = before[0].Value() // the name the person already has, once more
+			}
+			ind.AddName(added)
 			ns := ind.Names()
-			if len(ns) == 0 || ns[len(ns)-1].Value() != "Extra /Name/" {
+			if len(ns) == 0 || ns[len(ns)-1].Value() != added {
 				return "missed-added: after AddName the name is not the last of Names()"
+			}
+			// now and then something is only recorded under the repeated name
+			if r.Bool() {
+				m.tags["NOTE"] = true
+				ns[len(ns)-1].AddNode(gedcom.NewNode(gedcom.TagNote, fmt.Sprintf("only under name %d", len(ns)), ""))
 			}
 			return ""
 		})
@@ -913,6 +922,17 @@ func c13OtherReads(m *c13Mon, r *fw.Rand) {
 				target := gedcom.NewDocument()
 				_ = gedcom.DeepCopy(n, target)
 				_ = gedcom.Filter(n, target, gedcom.OfficialTagFilter())
+				// every filter function, applied to the live node itself
+				for _, fn := range []gedcom.FilterFunction{gedcom.RemoveDuplicateNamesFilter(), gedcom.RemoveEmptyDeathTagFilter(), gedcom.OnlyVitalsTagFilter(), gedcom.SimpleNameFilter(gedcom.NameFormatWritten),
+					gedcom.WhitelistTagFilter(gedcom.TagName, gedcom.TagBirth, gedcom.TagDate), gedcom.BlacklistTagFilter(gedcom.TagNote, gedcom.TagFamilySpouse)} {
+					_ = gedcom.Filter(n, gedcom.NewDocument(), fn)
+				}
+				_ = (&gedcom.FilterFlags{NoDuplicateNames: true, OnlyOfficial: true, NameFormat: "written"}).Filter(n, gedcom.NewDocument())
+				for _, ind := range m.doc.Individuals() {
+					if len(ind.Names()) > 1 {
+						_ = gedcom.Filter(ind, gedcom.NewDocument(), gedcom.RemoveDuplicateNamesFilter())
+					}
+				}
 				_ = gedcom.Flatten(target, n)
 			})
 		}
